@@ -16,6 +16,10 @@ EXTRA.update({"C02-r2-m2": ["C16"], "C04-r2-m2": ["C16"], "C05-r2-m3": ["C16"], 
   "C13-r2-m2": ["C01", "C15"], "C15-r2-m3": ["C01", "C13"], "C14-r2-m2": ["C07"], "C12-r2-m1": ["C03", "C01"], "C12-r2-m2": ["C03", "C10"], "C01-r2-m2": ["C15"], "C02-r2-m1": ["C15"],
   "C08-r2-m1": ["C15"], "C06-r2-m2": ["C15"], "C05-r2-m2": ["C15"], "C15-r2-m1": ["C04", "C12"], "C16-r2-m2": ["C01", "C10"], "C16-r2-m3": ["C04"], "C16-r2-m1": ["C03"]})
 
+EXTRA.update({"C06-r3-m1": ["C11"], "C06-r3-m2": ["C14"], "C06-r3-m3": ["C10"], "C07-r3-m1": ["C10"], "C07-r3-m2": ["C11"], "C07-r3-m3": ["C10"], "C08-r3-m2": ["C11"], "C08-r3-m3": ["C10"],
+  "C02-r3-m3": ["C11"], "C14-r3-m2": ["C10", "C07"], "C01-r3-m2": ["C03", "C12", "C17"], "C10-r3-m2": ["C05"], "C15-r3-m2": ["C01"], "C16-r3-m1": ["C01"], "C12-r3-m3": ["C01"], "C08-r3-m1": ["C18"],
+  "C01-r3-m1": ["C10"], "C02-r3-m2": ["C10"], "C13-r3-m3": ["C02"], "C10-r3-m3": ["C03"], "C10-r3-m1": ["C03"], "C12-r3-m1": ["C03"], "C11-r3-m3": ["C07"]})
+
 def one(path):
     cid = path.split("/")[3]
     name = "%s-%s%s" % (cid, os.environ.get("ROUND", ""), os.path.basename(path))
